@@ -30,6 +30,20 @@ def _int_list_assigned(fn, name):
     return list(v)
 
 
+def _is_name_chain(node):
+    """NAME or NAME.attr.attr... (a module-level constant, possibly of an imported helper module)"""
+    while isinstance(node, ast.Attribute):
+        node = node.value
+    return isinstance(node, ast.Name)
+
+
+def _resolve_name_chain(node, globs):
+    if isinstance(node, ast.Name):
+        return globs.get(node.id)
+    base = _resolve_name_chain(node.value, globs)
+    return getattr(base, node.attr, None) if base is not None else None
+
+
 def _bytes_list_in(fn):
     """the first literal list/tuple/set of bytes constants inside function fn; when the function instead tests
     membership in a module-level constant (`x in NAME`), the value of that constant"""
@@ -40,8 +54,8 @@ def _bytes_list_in(fn):
             return [e.value for e in node.elts]
     for node in ast.walk(tree):
         if isinstance(node, ast.Compare) and len(node.ops) == 1 and isinstance(node.ops[0], (ast.In, ast.NotIn)) \
-                and isinstance(node.comparators[0], ast.Name):
-            v = fn.__globals__.get(node.comparators[0].id)
+                and _is_name_chain(node.comparators[0]):
+            v = _resolve_name_chain(node.comparators[0], fn.__globals__)
             if isinstance(v, (list, tuple, set, frozenset)) and v and all(isinstance(e, bytes) for e in v):
                 return sorted(v) if isinstance(v, (set, frozenset)) else list(v)
     raise AssertionError("no literal list of bytes found in %s" % fn.__name__)
